@@ -3,7 +3,12 @@ import numpy
 from scipy.spatial import Delaunay
 from sklearn.cluster import KMeans
 from sklearn.metrics.pairwise import euclidean_distances
-from sklearn.utils import check_array, check_random_state
+from sklearn.utils import check_random_state
+
+try:
+    from sklearn.utils.validation import validate_data
+except ImportError:  # scikit-learn < 1.6
+    validate_data = None
 from ._kmeans_constraint_ import constraint_kmeans, constraint_predictions
 
 
@@ -116,7 +121,16 @@ class ConstraintKMeans(KMeans):
         :param sample_weight: sample weight
         """
         # The balancing code computes centres in the dtype of X.
-        X = check_array(X, accept_sparse="csr", dtype=[numpy.float64, numpy.float32])
+        # Like KMeans.fit, records the number of features of this training
+        # set: with kmeans0=False nothing else does, and predict would check
+        # its data against what a previous fit recorded.
+        kwargs = dict(
+            accept_sparse="csr", dtype=[numpy.float64, numpy.float32], reset=True
+        )
+        if validate_data is None:
+            X = self._validate_data(X, **kwargs)
+        else:
+            X = validate_data(self, X, **kwargs)
         max_iter = self.max_iter
         self.max_iter //= 2
         try:
